@@ -428,30 +428,30 @@ func ruleTYP4(p *Program) *RuleResult {
 		return r.anchorFail(err)
 	}
 	if fn := vm["VisitTypeExpression"]; fn != nil {
-		// the typeResult's err is tested and returned before a node is built: PAN6 covers nil nodes;
-		// here: there is an If on the err field of *typeResult dominating the node construction
-		found := false
-		for _, b := range fn.Blocks {
-			for _, ins := range b.Instrs {
-				if ld, ok := ins.(*ssa.UnOp); ok {
-					if fa, ok := ld.X.(*ssa.FieldAddr); ok && fieldName(fa) == "err" && strings.HasSuffix(typeShort(fa.X.Type()), "typeResult") {
-						for _, ref := range *ld.Referrers() {
-							if bo, ok := ref.(*ssa.BinOp); ok {
-								for _, r2 := range *bo.Referrers() {
-									if _, ok := r2.(*ssa.If); ok {
-										found = true
-									}
-								}
-							}
-						}
-					}
+		// with the visit of the type specifier answering an error, no node may be handed back
+		env, err := newVisitorEnv(p)
+		if err != nil {
+			return r.anchorFail(err)
+		}
+		env.typeSpecFails = true
+		var leaks []string
+		nret := 0
+		for _, tok := range []string{"is", "as"} {
+			vr := env.run(fn, tok, true)
+			for _, ret := range vr.rets {
+				nret++
+				if !ret.isVR || ret.err.k != kNonNil {
+					leaks = append(leaks, fmt.Sprintf("%q: return at %s with error %s", tok, p.instrPos(ret.at), ret.err))
 				}
 			}
 		}
-		if found {
-			r.ok("VisitTypeExpression|error", "the type specifier's error is tested before the node is built", p.pos(fn.Pos()), "the err field of the typeResult feeds a branch", false)
-		} else {
-			r.bad("VisitTypeExpression|error", "the type specifier's error is not tested", p.pos(fn.Pos()), "unknown type names would compile")
+		switch {
+		case nret == 0:
+			r.undecided("VisitTypeExpression|error", "the type expression visitor could not be analysed", p.pos(fn.Pos()), "unsupported shape")
+		case len(leaks) == 0:
+			r.ok("VisitTypeExpression|error", "when the type specifier is rejected, every return of the visitor carries an error", p.pos(fn.Pos()), "visitor analysed with the type-specifier visit answering an error", true)
+		default:
+			r.bad("VisitTypeExpression|error", "the type specifier's error is not tested: "+strings.Join(leaks, "; "), p.pos(fn.Pos()), "unknown type names would compile")
 		}
 	}
 	r.floor("cases", 28)
